@@ -29,10 +29,16 @@ def gen_case(rng, thorough):
     nobj = rng.randint(1, 3)
     ops = [('newobj', o, rng.randrange(ncls)) for o in range(nobj)]
     next_id, live = 0, []
+    def new_impl(h):
+        # plain implementations and (a quarter) cycle-guarded wrappers - typically a plug-in's wrapper on a base class around implementations of subclasses
+        if rng.random() < 0.25:
+            return dict(owner=rng.randrange(ncls), hook=h, tier=rng.choice([0, 1, 1, 2]), wrapper=True, guarded=True,
+                        post=rng.choice([('add', 100), ('add', 1000), ('id',)]), prog=None)
+        return dict(owner=rng.randrange(ncls), hook=h, tier=rng.choice([0, 1, 1, 2]), wrapper=False, guarded=False, post=None,
+                    prog=gen_prog(rng, h, nhooks, nobj))
     for _ in range(rng.randint(1, 4)):
         h = rng.randrange(nhooks)
-        im = dict(owner=rng.randrange(ncls), hook=h, tier=rng.choice([0, 1, 1, 2]), wrapper=False, guarded=False, post=None,
-                  prog=gen_prog(rng, h, nhooks, nobj))
+        im = new_impl(h)
         ops.append(('register', next_id, im)); live.append(next_id); next_id += 1
     copies = 0
     for _ in range(rng.randint(5, 30 if not thorough else 70)):
@@ -56,8 +62,7 @@ def gen_case(rng, thorough):
             ops.append(('clearcache', o))
         elif r < 0.80:
             hh = rng.randrange(nhooks)
-            im = dict(owner=rng.randrange(ncls), hook=hh, tier=rng.choice([0, 1, 1, 2]), wrapper=False, guarded=False, post=None,
-                      prog=gen_prog(rng, hh, nhooks, nobj))
+            im = new_impl(hh)
             ops.append(('register', next_id, im)); live.append(next_id); next_id += 1
         elif r < 0.85 and live:
             i = rng.choice(live); live.remove(i); ops.append(('remove', i))
@@ -227,6 +232,30 @@ def solver_roots_oracle(chk):
             hf.hook.remove_function(hf)
 
 
+def one_shot_values(chk):
+    """a freshly computed value is handed to the reader as it was computed - also a one-shot iterator (generator, zip, map, iter): the finiteness
+    test must not consume it; the first reader may be a has_value probe"""
+    from typing import Any
+    from pyroll.core import Hook, HookHost
+    makers = {'generator': lambda: (i * 1.5 for i in range(3)), 'zip': lambda: zip([1, 2], [3.0, 4.0]), 'map': lambda: map(float, [1, 2, 3]),
+              'iter': lambda: iter([1.0, 2.0]), 'dict-values': lambda: {'a': 1.0, 'b': 2.0}.values()}
+    for kind, mk in makers.items():
+        for probe_first in (False, True):
+            class K(HookHost):
+                h = Hook[Any]()
+            K.h(lambda self, mk=mk: mk())
+            k = K()
+            chk.cov['evaluations'] += 1
+            if probe_first:
+                k.has_value('h')
+            got = list(k.h)
+            want = list(mk())
+            if got != want:
+                return chk.fail('one-shot-value', f"an implementation returns a {kind} yielding {want}; the reader "
+                                f"{'(after a has_value probe) ' if probe_first else ''}receives an object yielding {got}", {'kind': kind, 'probe_first': probe_first})
+    return True
+
+
 def handover_oracle(chk):
     """explicit values of every kind keep being explicit values along a solved line: a callable given explicitly on the incoming profile is handed from
     position to position as the callable (not as the number it gave when the profile was copied) and is invoked on every read, with the object that is read"""
@@ -302,6 +331,8 @@ def run(chk):
         copy_oracle(chk)
     if not chk.failures:
         handover_oracle(chk)
+    if not chk.failures:
+        one_shot_values(chk)
     chk.sample(ser(cases[0]))
     chk.cov['rule'] = ("seeded random histories of read / assign (plain, falsy, None, zero- and one-argument callables) / delete / "
                        "re-evaluate / cache clear / register / remove / root evaluation / has_* on 1-3 instances of 1-3 classes with "
